@@ -44,6 +44,39 @@ static VP_TLS int errno_to_leave;
 static VP_TLS const int *P; static VP_TLS int PN, cursor, cur_state, depth, failed;
 static VP_TLS int last_ret;
 static VP_TLS int in_program;
+/* ---- loop mode (C03: "driving the same context through dispatch calls produces the same deliveries") ----
+ * The same programs are driven through blocking m_ctx_loop() calls: a Dispatch step that starts the loop becomes the call,
+ * the Dispatch steps that deliver a batch become returns of the wrapped epoll_wait, the top-level steps in between are executed
+ * from inside the wrapped epoll_wait (outside any callback, exactly like between two dispatch calls), and the Dispatch step that
+ * stops the loop is what m_ctx_loop() does by itself before it returns the quit code. */
+static int loop_mode;
+static VP_TLS int in_loop;
+static VP_TLS int prog_loopable;
+static VP_TLS const char *loop_expect_ready;
+static void fail(const char *sig, const char *fmt, ...);
+static long loop_call(gw_edge *start);
+static int spec_stop_pending(int st) {       /* looping and (quit requested or nothing running): the next dispatch is the stop */
+    const char *p = gw_states[st].proj;
+    if (strncmp(p, "ctx:looping,", 12)) return 0;
+    int len = 0, run = 0, quit = 0;
+    sscanf(p + 12, "%d,%d,%d", &len, &run, &quit);
+    return quit || run == 0;
+}
+static int next_is_dispatch(void) { return cursor < PN && !strcmp(gw_edges[P[cursor]].act, "Dispatch"); }
+static void consume_stop_edge(void) {        /* the library is about to run (or has run) loop_stop() */
+    if (in_loop == 1 && next_is_dispatch() && spec_stop_pending(cur_state)) { cur_state = gw_edges[P[cursor]].dst; cursor++; in_loop = 2; }
+}
+static int program_loopable(const int *prog, int n) {
+    /* not loop-replayable: a top-level step other than the stopping dispatch is taken while the stop is pending */
+    for (int i = 0; i < n; i++) {
+        gw_edge *e = &gw_edges[prog[i]];
+        if (strstr(gw_states[e->src].proj, "|d0|-") && spec_stop_pending(e->src) && strcmp(e->act, "Dispatch")) return 0;
+    }
+    return 1;
+}
+static void parse_batch(const char *arg);
+static int loop_poll(int epfd, struct epoll_event *events, int maxevents);
+
 
 /* ---- descriptor ledger (library-opened descriptors) ---- */
 #define MAXFD 1024
@@ -134,6 +167,12 @@ static int src_matches(ev_src_t *src, int m, const char *kind, int key) {
 int __wrap_epoll_wait(int epfd, struct epoll_event *events, int maxevents, int timeout) {
     if (!in_program) return __real_epoll_wait(epfd, events, maxevents, timeout);
     struct epoll_event tmp[64];
+    if (in_loop == 1 && !batch_armed) {
+        /* blocking loop: run the program's top-level steps from here until it prescribes the next batch (or the stop) */
+        int lr = loop_poll(epfd, events, maxevents);
+        if (lr <= 0) { errno = 0; return 0; }
+        batch_armed = 1;
+    }
     int n = __real_epoll_wait(epfd, tmp, 64, 0);
     poll_calls++;
     /* the really-ready set (mailboxes, user descriptors, timers, internal timers), rendered like the spec's Ready() */
@@ -149,6 +188,11 @@ int __wrap_epoll_wait(int epfd, struct epoll_event *events, int maxevents, int t
     for (int i = 0; i < n; i++) if (src_matches(tmp[i].data.ptr, -1, "tick", 0)) { k += snprintf(ready_seen + k, sizeof ready_seen - k, "k0,"); break; }
     if (!batch_armed) return 0;
     batch_armed = 0;
+    if (in_loop == 1 && loop_expect_ready) {
+        const char *exp = loop_expect_ready + 1;
+        loop_expect_ready = NULL;
+        if (strcmp(exp, ready_seen)) { fail("core-Dispatch-ready-set", "sources reported ready by the real poll: {%s}, spec: {%s}", ready_seen, exp); return 0; }
+    }
     int out = 0;
     for (int b = 0; b < nbatch && out < maxevents; b++)
         for (int i = 0; i < n; i++)
@@ -319,6 +363,7 @@ static VP_TLS const m_queue_t *cur_evts[16];
 static bool enter_cb(m_mod_t *self, const char *kind, const m_queue_t *evts) {
     if (failed) return true;
     cur_evts[depth + 1] = evts;
+    if (in_loop == 1 && depth == 0) consume_stop_edge();      /* a handler run by the final flush of m_ctx_loop() */
     int mi = lidx_of_mod(self);
     char top[1200], sig[160];
     evdesc[0] = 0;
@@ -448,28 +493,18 @@ static void exec_action(gw_edge *e) {
     else if (!strcmp(a, "CtxDeregister")) r = m_ctx_deregister();
     else if (!strcmp(a, "CtxFinalize")) r = m_ctx_finalize();
     else if (!strcmp(a, "CtxQuit")) r = m_ctx_quit((uint8_t)e->args[0]);
+    else if (!strcmp(a, "Dispatch") && loop_mode && prog_loopable && depth == 0 && !in_loop && !strncmp(gw_states[e->src].proj, "ctx:idle", 8)) {
+        /* loop mode: this dispatch starts the loop -> one blocking m_ctx_loop() call covers everything up to the stopping dispatch */
+        cursor--;                                  /* loop_call consumes the edge itself */
+        r = loop_call(e);
+        if (failed) return;
+        last_ret = norm(r, 0);
+        const char *top2 = strrchr(gw_states[cur_state].proj, '|');
+        compare(top2 ? top2 + 1 : "-", 1);
+        return;
+    }
     else if (!strcmp(a, "Dispatch")) {
-        /* the batch: "[[A;ps;0];[B;fd;1]]" = A's mailbox, then descriptor source 1 of B */
-        nbatch = 0;
-        for (const char *c = e->sargs[0]; *c && nbatch < 8; c++)
-            if (*c == '[' && c[1] != '[' && c[1] != ']') {
-                /* "[A;ps;0]" or "[;tick;0]" */
-                char nm[8] = {0}, kd[8] = {0};
-                int key = 0;
-                const char *q = c + 1;
-                size_t a = 0;
-                while (*q && *q != ';' && a < 7) nm[a++] = *q++;
-                if (*q == ';') q++;
-                a = 0;
-                while (*q && *q != ';' && a < 7) kd[a++] = *q++;
-                if (*q == ';') key = atoi(q + 1);
-                batch[nbatch].m = nm[0] ? lidx(nm) : -1;
-                snprintf(batch[nbatch].kind, sizeof batch[nbatch].kind, "%s", kd);
-                batch[nbatch].key = key;
-                nbatch++;
-                c = strchr(c, ']');
-                if (!c) break;
-            }
+        parse_batch(e->sargs[0]);
         batch_armed = 1;
         int pc0 = poll_calls;
         ready_seen[0] = 0;
@@ -612,6 +647,70 @@ static void exec_action(gw_edge *e) {
     errno = errno_to_leave;          /* what user code leaves behind in errno must not matter to the library */
 }
 
+static void parse_batch(const char *arg) {
+    /* the batch: "[[A;ps;0];[B;fd;1]]" = A's mailbox, then descriptor source 1 of B */
+        nbatch = 0;
+        for (const char *c = arg; *c && nbatch < 8; c++)
+            if (*c == '[' && c[1] != '[' && c[1] != ']') {
+                /* "[A;ps;0]" or "[;tick;0]" */
+                char nm[8] = {0}, kd[8] = {0};
+                int key = 0;
+                const char *q = c + 1;
+                size_t a = 0;
+                while (*q && *q != ';' && a < 7) nm[a++] = *q++;
+                if (*q == ';') q++;
+                a = 0;
+                while (*q && *q != ';' && a < 7) kd[a++] = *q++;
+                if (*q == ';') key = atoi(q + 1);
+                batch[nbatch].m = nm[0] ? lidx(nm) : -1;
+                snprintf(batch[nbatch].kind, sizeof batch[nbatch].kind, "%s", kd);
+                batch[nbatch].key = key;
+                nbatch++;
+                c = strchr(c, ']');
+                if (!c) break;
+            }
+}
+
+static void exec_action(gw_edge *e);
+static void compare(const char *topdesc, int check_ret);
+/* returns 1 when a batch was prescribed (to be delivered), 0 when the loop must just be woken up (stop pending) */
+static int loop_poll(int epfd, struct epoll_event *events, int maxevents) {
+    char sig[160];
+    if (failed) return 0;
+    compare("-", 0);                             /* state after the previous batch / step */
+    if (failed) return 0;
+    if (spec_stop_pending(cur_state)) { fail("core-loop-polls-instead-of-stopping", "m_ctx_loop() polls again although a quit was requested / no module is running (state %s)", gw_states[cur_state].proj); return 0; }
+    while (cursor < PN && !failed) {
+        gw_edge *e = &gw_edges[P[cursor]];
+        if (!strcmp(e->act, "CbReturn")) { fail("core-cbreturn-at-top", "spec returns from a callback the library never entered"); return 0; }
+        if (!strcmp(e->act, "Dispatch")) {
+            /* looping, no stop pending: this dispatch delivers a batch */
+            cursor++; cur_state = e->dst;
+            parse_batch(e->sargs[0]);
+            loop_expect_ready = strchr(gw_states[e->src].obs, ';');
+            return 1;
+        }
+        exec_action(e);
+        if (failed) return 0;
+        if (spec_stop_pending(cur_state)) { consume_stop_edge(); return 0; }     /* wake the loop up: it must notice and stop */
+    }
+    (void)sig;
+    fail("core-program-ended-in-loop", "program ended while m_ctx_loop() is blocked");
+    return 0;
+}
+/* a Dispatch step taken at the top level while the context is idle, in loop mode: the whole loop run */
+static long loop_call(gw_edge *start) {
+    cursor++; cur_state = start->dst;            /* loop_start(): its callbacks (eval / start) consume the following steps */
+    in_loop = 1;
+    batch_armed = 0;
+    long r = m_ctx_loop();
+    if (failed) return r;
+    if (in_loop == 1) consume_stop_edge();       /* stopped right after a batch, without polling again and without flush callbacks */
+    if (in_loop != 2) { in_loop = 0; fail("core-loop-returned-early", "m_ctx_loop() returned %ld although the spec expects the loop to go on (state %s)", r, gw_states[cur_state].proj); return r; }
+    in_loop = 0;
+    return r;
+}
+
 /* ---- one program ---- */
 static int gw_is_observer(const gw_edge *e) { return 0; }
 static int gw_is_nontrivial(const int *prog, int n) {
@@ -642,7 +741,7 @@ static void do_setup(void) {
         hcnt[m] = 1;
     }
     batch_armed = 0;
-    m_ctx_dispatch();
+    if (!(loop_mode && prog_loopable)) m_ctx_dispatch();
 }
 
 static int threaded;
@@ -659,11 +758,21 @@ static int gw_run(const int *prog, int n) {
     cur_state = gw_edges[prog[0]].src;
     in_program = 1;
     if (!threaded) alarm(20);
+    prog_loopable = loop_mode && program_loopable(prog, n);
+    in_loop = 0;
     if (setup_name[0]) {
         failed = 1;          /* callbacks during the set-up are not part of the program */
         do_setup();
         failed = 0;
-        compare("-", 0);     /* the set-up must have produced the configuration's initial state */
+        if (loop_mode && prog_loopable) {
+            /* the set-up's first dispatch becomes the blocking call: everything up to the stopping dispatch runs inside it */
+            in_loop = 1; batch_armed = 0;
+            long r = m_ctx_loop();
+            if (!failed && in_loop == 1) consume_stop_edge();
+            if (!failed && in_loop != 2) fail("core-loop-returned-early", "m_ctx_loop() returned %ld although the spec expects the loop to go on (state %s)", r, gw_states[cur_state].proj);
+            in_loop = 0;
+            if (!failed) { last_ret = norm(r, 0); const char *t2 = strrchr(gw_states[cur_state].proj, '|'); compare(t2 ? t2 + 1 : "-", 1); }
+        } else compare("-", 0);     /* the set-up must have produced the configuration's initial state */
     }
     while (cursor < PN && !failed) {
         gw_cur_step = cursor;
@@ -768,6 +877,7 @@ int main(int argc, char **argv) {
     if (getenv("VP_MAXPAY")) maxpay = atoi(getenv("VP_MAXPAY"));
     if (getenv("VP_SETUP")) setup_name = getenv("VP_SETUP");
     if (getenv("VP_NKEYS")) nkeys = atoi(getenv("VP_NKEYS"));
+    loop_mode = getenv("VP_LOOPMODE") && atoi(getenv("VP_LOOPMODE"));
     vp_alloc_install();
     signal(SIGALRM, on_alarm);
     measure_order();
